@@ -97,9 +97,8 @@ def evalSum (args : List (Res F)) : Res F :=
 
 /-- elements `MAX/MIN` look at (`xfunc` with `check=is_number`): literals are converted
 (`_convert_args`: logicals to 0/1, numeric text to its number, other text `#VALUE!`); inside arrays
-numbers and *numeric text* pass `is_number` (logicals, blanks and other text are skipped).  The
-numeric text stays text: Python's `max`/`min` then compares strings with strings (the result is
-that text) and fails on a mixture (`TypeError` → `#VALUE!`). -/
+numbers and *numeric text* pass `is_number` and the text is converted to its number (logicals, blanks
+and other text are skipped). -/
 def extremumTerms (args : List (Res F)) : Except Err (List (Val F)) :=
   args.foldlM (fun acc r =>
     match r with
@@ -112,7 +111,7 @@ def extremumTerms (args : List (Res F)) : Except Err (List (Val F)) :=
       .ok (acc ++ a.flatten.filterMap fun v =>
         match v with
         | .num x => some (.num x)
-        | .text s => if (Num.ofText s : Option F).isSome then some (.text s) else none
+        | .text s => (Num.ofText s : Option F).map .num        -- numeric text counts as its number
         | _ => none)) []
 
 def pickExtremum (isMax : Bool) : Val F → List (Val F) → Val F
